@@ -68,7 +68,17 @@ pub fn on_fresh_thread<T: Send + 'static>(f: impl FnOnce() -> T + Send + 'static
 pub fn execute_isolated(world: &Arc<dyn World>, scenario: &Json, keep_log: bool) -> Outcome {
     let w = world.clone();
     let sc = scenario.clone();
-    match on_fresh_thread(move || w.execute(&sc, keep_log)) {
+    // The start value of std's hash keys on the run's thread is part of the scenario.
+    let hash_seed = scenario
+        .get("hash_seed")
+        .or_else(|| scenario.get("knobs").and_then(|k| k.get("hash_seed")))
+        .or_else(|| scenario.get("base").and_then(|k| k.get("hash_seed")))
+        .and_then(|v| v.as_u64())
+        .unwrap_or(0);
+    match on_fresh_thread(move || {
+        crate::set_thread_hash_seed(hash_seed);
+        w.execute(&sc, keep_log)
+    }) {
         Ok(o) => o,
         Err(msg) => Outcome {
             harness_error: Some(format!("harness panic: {msg}")),
